@@ -76,6 +76,22 @@ func treeWorkload(c *Ctx, nMut, nGen int, f func(entry, input string)) {
 			idx++
 		}
 	}
+	// wide x deep: a list of w elements whose k-th element is one deep subtree
+	for _, fam := range gen.WideDeepFamilies {
+		for _, w := range []int{129, 300, 1200} {
+			for kind, ds := range [][]int{{130, 300, 1100}, {130, 300, 500}, {130, 500}} {
+				for _, d := range ds {
+					for _, k := range []int{0, w / 2, w - 2, w - 1} {
+						if c.Mine(idx) {
+							f(fam.Entry, fam.Make(w, k, gen.DeepExpr(kind, d)))
+							c.Count("wide_deep_inputs", 1)
+						}
+						idx++
+					}
+				}
+			}
+		}
+	}
 	for _, ll := range gen.LongLiterals() {
 		if c.Mine(idx) {
 			f(ll.Entry, ll.Text)
